@@ -120,13 +120,13 @@ theorem convertArgs_ignores_surplus (v : Value) : convertArgs [] [v] = .ok [] :=
 
 /-! ### `execute` in closed form -/
 
-/-- The handler slot a call selects: the query slot iff the header ended in `?`. -/
-def slot (call : CommandCall) : Option Nat :=
+/-- The handler unitSlot a call selects: the query unitSlot iff the header ended in `?`. -/
+def unitSlot (call : CommandCall) : Option Nat :=
   if call.query then call.node.query else call.node.command
 
 /-- The declaration (parameter types and user function) a call selects, if any. -/
-def resolve {σ : Type} (I : Iface σ) (call : CommandCall) : Option (Cmd σ) :=
-  (slot call).bind fun id => I.cmds[id]?
+def resolveCmd {σ : Type} (I : Iface σ) (call : CommandCall) : Option (Cmd σ) :=
+  (unitSlot call).bind fun id => I.cmds[id]?
 
 /-- Writing the response the handler returned: the response itself, then for a
 query the newline and a flush.  The first failing write is the outcome. -/
@@ -150,11 +150,11 @@ theorem respond_no_crash (q : Bool) (w : Writer) (resp : Resp) (c : Crash) :
     · split <;> (intro h; cases h)
     · intro h; cases h
 
-/-- **`execute` in closed form**: look up the slot, check the arity, convert the
+/-- **`execute` in closed form**: look up the unitSlot, check the arity, convert the
 parameters left to right, call the handler once, write the response. -/
 theorem execute_eq {σ : Type} (I : Iface σ) (call : CommandCall) (w : Writer) (s : σ) :
     execute I call w s =
-      match resolve I call with
+      match resolveCmd I call with
       | none => (s, w, .err (.std .UndefinedHeader))
       | some c =>
         if call.args.length ≠ c.argTys.length then (s, w, .err (.std .UnexpectedNumberOfParameters))
@@ -166,7 +166,7 @@ theorem execute_eq {σ : Type} (I : Iface σ) (call : CommandCall) (w : Writer) 
             match c.handler s tvs with
             | (s', .error e) => (s', w, .err e)
             | (s', .ok resp) => (s', respond call.query w resp) := by
-  unfold execute resolve slot
+  unfold execute resolveCmd unitSlot
   cases hs : (if call.query then call.node.query else call.node.command) with
   | none => rfl
   | some id =>
@@ -203,13 +203,13 @@ theorem execute_eq {σ : Type} (I : Iface σ) (call : CommandCall) (w : Writer) 
                 | error e => rfl
                 | ok u => cases u; rfl
 
-/-- The slot is missing: the node has no handler of the kind asked for, or the id
+/-- The unitSlot is missing: the node has no handler of the kind asked for, or the id
 is not in the handler table. -/
 theorem resolve_eq_none_iff {σ : Type} (I : Iface σ) (call : CommandCall) :
-    resolve I call = none ↔
-      slot call = none ∨ ∃ id, slot call = some id ∧ I.cmds.length ≤ id := by
-  unfold resolve
-  cases slot call with
+    resolveCmd I call = none ↔
+      unitSlot call = none ∨ ∃ id, unitSlot call = some id ∧ I.cmds.length ≤ id := by
+  unfold resolveCmd
+  cases unitSlot call with
   | none => simp
   | some id => simp
 
@@ -245,8 +245,8 @@ theorem respond_ok_iff (q : Bool) (w w' : Writer) (resp : Resp) :
 `Scpi.C06.execute_err_cases`. -/
 theorem execute_err_cases' {σ : Type} (I : Iface σ) (call : CommandCall) (w w' : Writer) (s s' : σ)
     (e : Err) (h : execute I call w s = (s', w', .err e)) :
-    (resolve I call = none ∧ e = .std .UndefinedHeader ∧ s' = s ∧ w' = w) ∨
-    ∃ c, resolve I call = some c ∧
+    (resolveCmd I call = none ∧ e = .std .UndefinedHeader ∧ s' = s ∧ w' = w) ∨
+    ∃ c, resolveCmd I call = some c ∧
       ((call.args.length ≠ c.argTys.length ∧ e = .std .UnexpectedNumberOfParameters ∧
           s' = s ∧ w' = w) ∨
        (call.args.length = c.argTys.length ∧ convertArgs c.argTys call.args = .error (.inl e) ∧
@@ -255,7 +255,7 @@ theorem execute_err_cases' {σ : Type} (I : Iface σ) (call : CommandCall) (w w'
          ((c.handler s tvs = (s', .error e) ∧ w' = w) ∨
           ∃ resp, c.handler s tvs = (s', .ok resp) ∧ respond call.query w resp = (w', .err e))) := by
   rw [execute_eq] at h
-  cases hr : resolve I call with
+  cases hr : resolveCmd I call with
   | none => rw [hr] at h; cases h; exact Or.inl ⟨rfl, rfl, rfl, rfl⟩
   | some c =>
     rw [hr] at h
@@ -289,11 +289,11 @@ theorem execute_err_cases' {σ : Type} (I : Iface σ) (call : CommandCall) (w w'
 parameters, and its response was written completely. -/
 theorem execute_ok_cases' {σ : Type} (I : Iface σ) (call : CommandCall) (w w' : Writer) (s s' : σ)
     (h : execute I call w s = (s', w', .ok)) :
-    ∃ c tvs resp, resolve I call = some c ∧ call.args.length = c.argTys.length ∧
+    ∃ c tvs resp, resolveCmd I call = some c ∧ call.args.length = c.argTys.length ∧
       convertArgs c.argTys call.args = .ok tvs ∧ c.handler s tvs = (s', .ok resp) ∧
       respond call.query w resp = (w', .ok) := by
   rw [execute_eq] at h
-  cases hr : resolve I call with
+  cases hr : resolveCmd I call with
   | none => rw [hr] at h; cases h
   | some c =>
     rw [hr] at h
